@@ -297,3 +297,46 @@ example : isReserved ['_', '_', 'x', '_', '_'] = true ∧ isReserved ['_', '_', 
     isReserved ['_', '_', 'i', 'n', 'i', 't', '_'] = false ∧ isReserved ['I', 'd'] = false := by decide
 
 end PyxProps.C10
+
+/-! ==========================================================================================================
+  APPLIED examples (audit round 2, item 12): the main theorems instantiated, every hypothesis discharged for the
+  concrete class `cB` (three attributes, one referential), dictionary `dB` and history `hB` above
+  ========================================================================================================== -/
+namespace PyxProps.C10
+open Pyx.Attr
+
+theorem cB_wf : WF cB := by unfold WF; decide
+theorem dB_good : Good cB dB := by unfold Good; decide
+
+/-- `one_cell` on (cB, dB, hB): after the history the attribute `Nm`, read under the spelling `nM`, holds the last value
+    written to its case-folded name, which is what the declared spelling reads -/
+example : getattr cB (run cB dB hB) ['n', 'M'] = cellRead (lastValue cB (fold ['N', 'm']) (dget dB ['N', 'm']) hB) ∧
+    getattr cB (run cB dB hB) ['n', 'M'] = getattr cB (run cB dB hB) ['N', 'm'] :=
+  let h := (one_cell cB cB_wf dB dB_good hB).2 ['N', 'm'] (by decide) (by decide) ['n', 'M'] (by decide)
+  ⟨h.1, h.2.1⟩
+/-- `delete_spec` on the reached state (it is `Good` by `one_cell`): a delete under `ID` removes exactly the key `Id`; a
+    delete of the referential attribute under another spelling raises AttributeError and changes nothing -/
+example : delattr (run cB dB hB) ['I', 'D'] = (ddel (run cB dB hB) ['I', 'd'], DelRes.ok) ∧
+    delattr (run cB dB hB) ['a', '_', 'i', 'D'] = (run cB dB hB, DelRes.attrError) :=
+  ⟨(delete_spec cB _ (one_cell cB cB_wf dB dB_good hB).1 ['I', 'd'] (by decide) ['I', 'D'] (by decide)).1 (by decide),
+   (delete_spec cB _ (one_cell cB cB_wf dB dB_good hB).1 ['A', '_', 'I', 'd'] (by decide) ['a', '_', 'i', 'D'] (by decide)).2.2
+     (by decide)⟩
+/-- `constructor_keywords_one_cell` and `constructor_keyword_spelling` on `new(B, 7, nM='x')`: the constructor succeeds, the
+    dictionary is good, `Nm` reads under `NM` the keyword value, and the keyword resolves to the declared name -/
+example : (newCore cB [(['I', 'd'], .int 1), (['N', 'm'], .str [])] [.int 7] [(['n', 'M'], .str ['x'])]).2 = SetRes.ok ∧
+    getattr cB (newCore cB [(['I', 'd'], .int 1), (['N', 'm'], .str [])] [.int 7] [(['n', 'M'], .str ['x'])]).1.dict ['N', 'M'] =
+      cellRead (lastValue cB (fold ['N', 'm']) none
+        (writesOf cB (newItems cB [(['I', 'd'], .int 1), (['N', 'm'], .str [])] [.int 7] [(['n', 'M'], .str ['x'])]))) ∧
+    resolveKw cB (['n', 'M'], .str ['x']) = (['N', 'm'], .str ['x']) :=
+  let h := constructor_keywords_one_cell cB cB_wf [(['I', 'd'], .int 1), (['N', 'm'], .str [])] [.int 7]
+    [(['n', 'M'], .str ['x'])] (by decide)
+  ⟨h.1, h.2.2 ['N', 'm'] (by decide) (by decide) ['N', 'M'] (by decide),
+   (constructor_keyword_spelling cB cB_wf).1 ['N', 'm'] (by decide) ['n', 'M'] (by decide) _⟩
+/-- `define_class_checks_names` and `class_lookup_case` applied: the class defined as `Bb` with cB's attributes is WF and is
+    found under `bB`; with a reserved attribute name it is refused -/
+example : (∀ cs', defineClass [] ['B', 'b'] cB.attrs = some cs' → WF { kind := ['B', 'b'], attrs := cB.attrs, refs := [] }) ∧
+    defineClass [] ['B', 'b'] [(['_', '_', 'x', '_', '_'], ['s'])] = none :=
+  ⟨fun cs' h => ((define_class_checks_names [] cs' ['B', 'b'] cB.attrs).2.2 h).1,
+   (define_class_checks_names [] [] ['B', 'b'] [(['_', '_', 'x', '_', '_'], ['s'])]).2.1 ⟨_, List.mem_singleton.mpr rfl, by decide⟩⟩
+
+end PyxProps.C10
